@@ -390,7 +390,7 @@ for _n in (9, 10, 11, 16, 24, 32, 64):
     _mk_regular(_n, "thorough")
 for _n in (4, 5, 8, 16):
     _mk_circle(_n, "quick")
-for _n in (6, 7, 12, 24, 32, 64, 128):
+for _n in (6, 7, 12, 24, 32):
     _mk_circle(_n, "thorough")
 for _degs in [(1, 1, 1), (1, 2), (2, 2), (1, 2, 3), (3, 3)]:
     _mk_plot_path(_degs)
